@@ -64,11 +64,16 @@ def run(v, workdir, replay):
             if e["outcome"] == "ok":
                 v.saw("accepted", e["n"])
             v.saw("op:" + e["operator"].split(":")[-1], e["n"])
+        elif k == "proof_reverification":
+            v.saw("proofs_reverified_on_accepted_blocks", e["proofs_reverified"])
+            v.saw("obs_library_accepts_where_rfc9162_rejects", e["library_accepts_where_rfc9162_rejects"])
         elif k == "decode_case":
             oc = e["outcome"]
             wit = {"entry": e["entry"], "operator": e["operator"], "outcome": oc, "input_hex": e["input"][:4000], "input_len": len(e["input"]) // 2}
             if e["operator"] == "valid":
                 raise runner.Inconclusive("a valid %s encoding built by the harness is not accepted (%s): corpus broken" % (e["entry"], oc))
+            if oc.startswith("panic") and ("vh-wire/src" in oc or "harness/common" in oc):
+                raise runner.Inconclusive("the harness itself panicked (%s): not a statement about astria" % oc[:200])
             if oc.startswith("panic"):
                 m = _LOC.search(oc)
                 loc = m.group(1).split("crates/", 1)[1] if m else "unknown"
@@ -77,6 +82,7 @@ def run(v, workdir, replay):
                 v.violate("C17/accepted-value-inconsistent/%s/%s" % (e["entry"], oc), "%s accepted a value that is not self-consistent: %s" % (e["entry"], oc), wit)
     v.need("inputs", 500000 if not thorough else 5000000)
     v.need("accepted", 5000)
+    v.need("proofs_reverified_on_accepted_blocks", 2000)
     for en in ("transaction", "sequencer_block", "filtered_block", "submitted_metadata", "submitted_rollup_data", "metadata_blob", "rollup_blob"):
         v.need("entry:" + en, 2000)
     for op in ("truncate", "flip_bit", "splice", "delete_field", "duplicate_field", "reorder_field", "varint_extreme", "varint_nudge", "length_prefix",
